@@ -830,6 +830,11 @@ pub fn redex_sweep() -> Vec<(String, tir::Expression)> {
             let m = E::Map(vec![(E::Number(0), x), (E::Number(1), E::Number(9))]);
             E::EvalBuiltIn(Box::new(B::Property(E::EvalBuiltIn(Box::new(B::Property(m, E::Number(0)))), E::Number(1))))
         })),
+        // positions the list does not have, a multiple of 2^64 away from ones it has
+        ("list[2^64]", Box::new(move |x| E::EvalBuiltIn(Box::new(B::Property(E::List(vec![x, E::Number(9)]), E::Number(1i128 << 64)))))),
+        ("list[2^64+1]", Box::new(move |x| E::EvalBuiltIn(Box::new(B::Property(E::List(vec![E::Number(9), x]), E::Number((1i128 << 64) + 1)))))),
+        ("list[-2^64]", Box::new(move |x| E::EvalBuiltIn(Box::new(B::Property(E::List(vec![x, E::Number(9)]), E::Number(-(1i128 << 64))))))),
+        ("struct.2^64", Box::new(move |x| E::EvalBuiltIn(Box::new(B::Property(E::Struct(tir::StructExpr { constructor: 0, fields: vec![x, E::Number(9)] }), E::Number(1i128 << 64)))))),
         ("list[index-pending]", Box::new(move |x| E::EvalBuiltIn(Box::new(B::Property(E::List(vec![E::Number(9), E::Number(8), E::Number(7), x]), param("q", Type::Int)))))),
     ];
     let mut out: Vec<(String, E)> = vec![];
